@@ -12,7 +12,7 @@ pub struct XChaCha20 {
     key: [u8; 32],
     nonce: [u8; 24],
     pos: usize,
-    have: [bool; KS_CHUNKS],
+    have: [u8; KS_CHUNKS], // u8, not bool: a niche-bearing field would make rustc hide the discriminant of Result<(XChaCha20, ..), _> in it, and CBMC then stops constant-folding the payload
     ks: [[u8; 64]; KS_CHUNKS],
 }
 impl KeySizeUser for XChaCha20 {
@@ -27,21 +27,21 @@ impl KeyIvInit for XChaCha20 {
         k.copy_from_slice(key);
         let mut n = [0u8; 24];
         n.copy_from_slice(iv);
-        XChaCha20 { key: k, nonce: n, pos: 0, have: [false; KS_CHUNKS], ks: [[0; 64]; KS_CHUNKS] }
+        XChaCha20 { key: k, nonce: n, pos: 0, have: [0; KS_CHUNKS], ks: [[0; 64]; KS_CHUNKS] }
     }
 }
 impl XChaCha20 {
     fn byte(&mut self, p: usize) -> u8 {
         let c = p / 64;
         assert!(c < KS_CHUNKS, "[model] capacity: keystream position beyond the modelled chunks");
-        if !self.have[c] {
+        if self.have[c] == 0 {
             let mut m = [0u8; 28];
             m[..24].copy_from_slice(&self.nonce);
             m[24..].copy_from_slice(&(c as u32).to_le_bytes());
             let mut o = [0u8; 64];
             uf(alg::XCHACHA20_KS, false, &self.key, &m, &mut o);
             self.ks[c] = o;
-            self.have[c] = true;
+            self.have[c] = 1;
         }
         self.ks[c][p % 64]
     }
